@@ -755,6 +755,24 @@ def _graph_case(ctx, prog, case, ops=None, n_ops=None, label="gen"):
                      f"the approximation after update {k_} changed when later updates were made (factors {changed[:4]})",
                      dict(case, step=k_), {"then": {i: show(rec_[i]) for i in changed[:2]}, "now": {i: show(now[i]) for i in changed[:2] if i in now}})
             break
+    # the in-place route (`update_factor_mean_field`, used by `approx[index] = subset` and the stochastic optimiser):
+    # after a factor's message was replaced on the *same* object, the global approximation read from that object
+    # is the product of the messages it holds now - what a fresh approximation over the same messages reports
+    if done:
+        try:
+            src_, tgt_ = states[0], states[-1]
+            probe = type(src_)(factor_graph=src_.factor_graph, factor_mean_field=src_.factor_mean_field)
+            field_of(B, probe.mean_field)  # read before the update
+            for f_, dist_ in tgt_.factor_mean_field.items():
+                probe.update_factor_mean_field(f_, dist_)
+            got_, want_ = wire_field(field_of(B, probe.mean_field)), wire_field(field_of(B, tgt_.mean_field))
+            ctx.hit("in-place-route")
+            if got_ != want_:
+                ctx.fail("C18-global-stale-after-in-place-update",
+                         "after messages were replaced in place (update_factor_mean_field) the global approximation read from the same "
+                         "object is not the product of the messages it holds", dict(case, in_place=True), {"got": got_[:3], "want": want_[:3]})
+        except Exception as e:  # noqa
+            ctx.hit("in-place-route-raised:" + type(e).__name__)
     ops_wire = [{kk: o[kk] for kk in ("f", "age", "q", "delta", "success", "tag") if kk in o} for o, *_ in done]
     ans = lean_ep(ctx, B, fl, ops_wire)
     shared = any(sum(1 for ps in B.places if v in ps) >= 2 for v in B.order)
